@@ -343,3 +343,49 @@ impl<H: Host> Emulator<H> {
         }
     }
 }
+
+/// Verification hooks. Only compiled with the `verif` feature; they expose
+/// state to external monitors and never change emulation logic.
+#[cfg(feature = "verif")]
+impl<H: Host> Emulator<H> {
+    /// Mutable access to the CPU
+    pub fn verif_cpu(&mut self) -> &mut Z80 {
+        &mut self.cpu
+    }
+
+    /// Shared access to the CPU
+    pub fn verif_cpu_ref(&self) -> &Z80 {
+        &self.cpu
+    }
+
+    /// Clocks passed since the frame start
+    pub fn verif_frame_clocks(&self) -> usize {
+        self.controller.frame_clocks
+    }
+
+    /// Places the frame clock. Video/audio devices are not re-synchronised
+    pub fn verif_set_frame_clocks(&mut self, clocks: usize) {
+        self.controller.frame_clocks = clocks;
+    }
+
+    /// Raw contents of RAM page `page`, if the machine has it
+    pub fn verif_ram_page(&self, page: u8) -> Option<&[u8]> {
+        let pages = match self.settings.machine {
+            crate::zx::machine::ZXMachine::Sinclair48K => 3,
+            crate::zx::machine::ZXMachine::Sinclair128K => 8,
+        };
+        if page < pages {
+            Some(self.controller.memory.ram_page_data(page))
+        } else {
+            None
+        }
+    }
+
+    /// Last accepted 0x7FFD value and whether paging is locked
+    pub fn verif_paging(&self) -> (u8, bool) {
+        (
+            self.controller.read_7ffd(),
+            !self.controller.verif_paging_enabled(),
+        )
+    }
+}
